@@ -264,8 +264,7 @@ func runC01(c *Ctx) {
 	pureScan(c, "C01.pure.no-package-state", fn)
 
 	// identity: who may write
-	pk := c.P.Pkg("pkg/ed25519")
-	if g, ok := pk.Members["identity"].(*ssa.Global); ok {
+	if g := c.gvar("pkg/ed25519", "identity"); g != nil {
 		writers, initOK := 0, false
 		for _, rf := range c.P.RepoFuncs("pkg/ed25519") {
 			sb := ana.NewBuilder(c.P, rf)
